@@ -684,7 +684,15 @@ class LibraryParser:
                 k = a.find("=>")
                 if k < 0:
                     raise Unparsed("port association expected", a)
-                portmap.append((a[:k].strip(), parse_expr(a[k + 2:], ent.scope, a)))
+                formal = a[:k].strip()
+                m2 = re.fullmatch(r"(std_logic_vector|unsigned|signed)\s*\(\s*(\w+)\s*\)", formal, re.I)
+                if m2:
+                    # type conversion on the formal side (output ports): actual <= conv(formal)
+                    portmap.append((m2.group(2), parse_expr(a[k + 2:], ent.scope, a), m2.group(1).lower()))
+                else:
+                    if not re.fullmatch(r"\w+", formal):
+                        raise Unparsed("unsupported formal designator", a)
+                    portmap.append((formal, parse_expr(a[k + 2:], ent.scope, a), None))
             self.next()
         ent.conc.append(Instance(label, name, arch, portmap))
 
@@ -836,6 +844,21 @@ def _subst_expr(e, ren, sub):
     raise AssertionError(e)
 
 
+def _names_in(e):
+    k = e[0]
+    if k == "name":
+        return [e[1]]
+    if k == "edge":
+        return [e[2]]
+    if k == "lit":
+        return []
+    out = []
+    for x in e[1:]:
+        if isinstance(x, tuple):
+            out += _names_in(x)
+    return out
+
+
 def _subst_target(t, ren, sub):
     name, path = t
     path2 = []
@@ -942,9 +965,7 @@ def elaborate(entities, top=None, clk="clk"):
                 sens = []
                 for s in c.sens:
                     if s.lower() in sub:
-                        a = sub[s.lower()]
-                        root, _ = expr_to_target(a, "sensitivity actual")
-                        sens.append(root)
+                        sens.extend(_names_in(sub[s.lower()]))
                     else:
                         sens.append(ren[s.lower()])
                 d.conc.append(("proc", plabel, sens, _subst_stmts(c.body, pren, sub)))
@@ -958,17 +979,30 @@ def elaborate(entities, top=None, clk="clk"):
                     raise Unparsed(f"instance names architecture {c.arch}, entity has {child.arch}")
                 formals = {p.name.lower() for p in child.ports}
                 csub = {}
-                for formal, actual in c.portmap:
+                seen = set()
+                post = []
+                pdir = {p.name.lower(): p for p in child.ports}
+                for formal, actual, conv in c.portmap:
                     f = formal.lower()
                     if f not in formals:
                         raise Unparsed(f"port map names unknown formal {formal}")
-                    if f in csub:
+                    if f in seen:
                         raise Unparsed(f"formal {formal} associated twice")
-                    csub[f] = _subst_expr(actual, ren, sub)
-                missing = formals - set(csub)
+                    seen.add(f)
+                    if conv is None:
+                        csub[f] = _subst_expr(actual, ren, sub)
+                    else:
+                        if pdir[f].dir != "out":
+                            raise Unparsed("formal-side conversion on an input port")
+                        # the formal keeps its own net; the actual is driven from it through the conversion
+                        post.append((f, _subst_target(expr_to_target(actual, "port actual"), ren, sub), conv))
+                missing = formals - seen
                 if missing:
                     raise Unparsed(f"formals left unassociated: {sorted(missing)}")
-                inline(child, prefix + c.label + ".", csub, depth + 1)
+                cren = inline(child, prefix + c.label + ".", csub, depth + 1)
+                for f, tgt, conv in post:
+                    d.conc.append(("assign", tgt, ("f1", FN1[conv], ("name", cren[f]))))
+                continue
             elif c[0] == "assign":
                 d.conc.append(("assign", _subst_target(c[1], ren, sub), _subst_expr(c[2], ren, sub)))
             elif c[0] == "select":
@@ -977,6 +1011,7 @@ def elaborate(entities, top=None, clk="clk"):
                                None if c[4] is None else _subst_expr(c[4], ren, sub)))
             else:
                 raise AssertionError(c)
+        return ren
 
     inline(top_e, "", {}, 0)
     for p in top_e.ports:
